@@ -42,3 +42,21 @@ lemmadef tot_member(D set[ref], vals map[ref]seq[ref], l ref):
     forall r ref {Occ(vals[r], l)} :: D[r] ==> Occ(vals[r], l) <= Tot(D, vals, l)
 lemmadef tot_none(D set[ref], vals map[ref]seq[ref]):
     (forall r ref :: !D[r]) ==> (forall l ref {Tot(D, vals, l)} :: Tot(D, vals, l) == 0)
+
+# SeqSum(s, n, f): sum of f over the first n elements of the sequence s.
+fn SeqSum(s seq[ref], n int, f map[ref]int) int
+axiom seqsum_zero: forall s seq[ref], f map[ref]int {SeqSum(s, 0, f)} :: SeqSum(s, 0, f) == 0
+lemmadef seqsum_step(s seq[ref], n int, f map[ref]int):
+    n >= 0 ==> SeqSum(s, n + 1, f) == SeqSum(s, n, f) + f[s[n]]
+lemmadef seqsum_frame(s seq[ref], n int, f map[ref]int, g map[ref]int):
+    (forall i int :: 0 <= i && i < n ==> f[s[i]] == g[s[i]]) ==> SeqSum(s, n, f) == SeqSum(s, n, g)
+lemmadef seqsum_nonneg(s seq[ref], n int, f map[ref]int):
+    (forall i int :: 0 <= i && i < n ==> f[s[i]] >= 0) ==> SeqSum(s, n, f) >= 0
+
+# SeqSum2(s, n, g, f): sum over the first n elements x of s of f[g[x]] (f read through the pointer field g).
+fn SeqSum2(s seq[ref], n int, g map[ref]ref, f map[ref]int) int
+axiom seqsum2_zero: forall s seq[ref], g map[ref]ref, f map[ref]int {SeqSum2(s, 0, g, f)} :: SeqSum2(s, 0, g, f) == 0
+axiom seqsum2_store: forall s seq[ref], n int, g map[ref]ref, f map[ref]int, x ref, v int {SeqSum2(s, n, g, upd(f, x, v))} ::
+    (forall i int :: 0 <= i && i < n ==> g[s[i]] != x) ==> SeqSum2(s, n, g, upd(f, x, v)) == SeqSum2(s, n, g, f)
+lemmadef seqsum2_step(s seq[ref], n int, g map[ref]ref, f map[ref]int):
+    n >= 0 ==> SeqSum2(s, n + 1, g, f) == SeqSum2(s, n, g, f) + f[g[s[n]]]
